@@ -362,6 +362,50 @@ class FnAnalysis:
         if d.op == 'select': return any(s.is_buf_ptr(o, depth + 1) for o in d.ops[1:])
         return False
 
+    def ptr_root(s, v, depth=0):
+        """(root, constant offset) of a pointer value: root = ('cell', ROLE) or ('local', name) for the load it is derived
+        from by getelementptr with constant indices / casts; (None, None) when it is not of that shape"""
+        off = 0
+        while depth < 20:
+            depth += 1
+            if not isinstance(v, tuple) or v[0] != 'reg': return (None, None)
+            d = s.fn.def_of(v)
+            if d is None: return (None, None)
+            if d.op == 'bitcast': v = d.ops[0]; continue
+            if d.op == 'getelementptr' and len(d.ops) == 2 and d.ops[1][0] == 'int':
+                off += d.ops[1][1]; v = d.ops[0]; continue
+            if d.op == 'load':
+                l = s.loc(d.ops[0])
+                if l[0] == 'local': return (('local', l[1]), off)
+                r = cell_role(l)
+                return ((('cell', r), off) if r else (None, None))
+            return (None, None)
+        return (None, None)
+
+    def ptr_cells(s, v, depth=0, seen=None):
+        """roles of the cells a pointer value is ultimately derived from (through locals, getelementptr with any index)"""
+        if seen is None: seen = set()
+        out = set()
+        if not isinstance(v, tuple) or v[0] != 'reg' or depth > 20: return out
+        d = s.fn.def_of(v)
+        if d is None:
+            if v[1] in s.tparams: out.add('PARAM')
+            return out
+        if d.op in ('getelementptr', 'bitcast'): return s.ptr_cells(d.ops[0], depth + 1, seen)
+        if d.op in ('phi', 'select'):
+            for o in (d.ops if d.op == 'phi' else d.ops[1:]): out |= s.ptr_cells(o, depth + 1, seen)
+            return out
+        if d.op == 'load':
+            l = s.loc(d.ops[0])
+            if l[0] == 'local':
+                if l[1] in seen: return out
+                seen.add(l[1])
+                for st in s.lstores.get(l[1], []): out |= s.ptr_cells(st.ops[0], depth + 1, seen)
+                return out
+            r = cell_role(l)
+            if r: out.add(r)
+        return out
+
     # ---- accesses
     def role_of(s, x):
         """role of the cell a load/store instruction accesses (exact location), else None"""
